@@ -95,3 +95,12 @@ brk("c31-mutable-read-length-from-wrong-share", HS,
     "            share_length = self._storage_server.get_mutable_share_length(\n                storage_index, share_number\n            )",
     "            share_length = min(self._storage_server.get_mutable_share_length(\n                storage_index, share_number\n            ), 50)",
     note="mutable range reads truncated at 50 bytes")
+# ---- first-pass conflict check of multi-block PATCH bodies (added after the fix of the large-write atomicity finding)
+brk("c31-precheck-first-block-only", HS,
+    "                bucket.check_conflicts(check_offset, data)\n",
+    "                if check_offset == offset:\n                    bucket.check_conflicts(check_offset, data)\n",
+    note="a conflict in the 2nd+ 64 KiB block is found only while writing: earlier blocks are applied before the 409")
+brk("c31-precheck-offset-not-advanced", HS,
+    "                bucket.check_conflicts(check_offset, data)\n",
+    "                bucket.check_conflicts(offset, data)\n",
+    note="= seeded/C31-1: an identical re-send of a body > 64 KiB gets 409")
